@@ -83,13 +83,37 @@ fn programs() -> Vec<Program> {
       ],
     },
   ];
-  v.into_iter()
+  let mut out: Vec<Program> = v
+    .into_iter()
     .map(|p| Program {
       name: p.name.to_string(),
       modules: p.modules.into_iter().map(|(a, b)| (a.to_string(), b.to_string())).collect(),
       entry: p.entry.to_string(),
     })
-    .collect()
+    .collect();
+  // many diagnostics: far more than any cap or buffer a collector might use (5 x 30 = 150 errors
+  // in five modules, a clean sixth)
+  let noisy = |name: &str| -> String {
+    let mut t = format!("class {name} {{\n");
+    for i in 0..30 {
+      t.push_str(&format!("  function wrong{i}(): int = \"text {i} of {name}\"\n"));
+    }
+    t.push_str("}\n");
+    t
+  };
+  out.push(Program {
+    name: "rejected: 150 errors spread over five modules".to_string(),
+    modules: vec![
+      ("NoisyA".to_string(), noisy("NoisyA")),
+      ("NoisyB".to_string(), noisy("NoisyB")),
+      ("NoisyC".to_string(), noisy("NoisyC")),
+      ("NoisyD".to_string(), noisy("NoisyD")),
+      ("NoisyE".to_string(), noisy("NoisyE")),
+      ("Main".to_string(), "import { NoisyA } from NoisyA\nimport { NoisyB } from NoisyB\nimport { NoisyC } from NoisyC\nimport { NoisyD } from NoisyD\nimport { NoisyE } from NoisyE\nclass Main { function main(): unit = { } }\n".to_string()),
+    ],
+    entry: "Main".to_string(),
+  });
+  out
 }
 
 fn permutations(n: usize) -> Vec<Vec<usize>> {
@@ -252,7 +276,15 @@ fn main() {
   let worker_counts: Vec<usize> = if thorough { (1..=16).collect() } else { vec![1, 2, 3, 16] };
   for p in &progs {
     let n = p.modules.len();
-    let perms = permutations(n);
+    // n! x n! orders up to 4 modules; beyond that the n rotations and the reversal (the internal
+    // maps of the compiler get fresh hash seeds in every run anyway, see the residual phase)
+    let perms = if n <= 4 {
+      permutations(n)
+    } else {
+      let mut v: Vec<Vec<usize>> = (0..n).map(|r| (0..n).map(|i| (i + r) % n).collect()).collect();
+      v.push((0..n).rev().collect());
+      v
+    };
     space.insert(format!("{}: orders", p.name), json!(perms.len() * perms.len()));
     let identity: Vec<usize> = (0..n).collect();
     // reference result
